@@ -293,7 +293,13 @@ func rep(s string, n int) string { return strings.Repeat(s, n) }
 func ScaledFamilies(big bool) []Scaled {
 	var out []Scaled
 	add := func(name, src string) { out = append(out, Scaled{Name: name, Src: src}) }
-	lens := []int{93, 94, 95, 96, 97, 239, 240, 241, 242, 2286, 2287, 2288, 2289, 4094, 4095, 4096, 4097}
+	// every short length (fast paths for strings that fit a peeked header, a machine word, a small buffer) ...
+	var lens []int
+	for L := 0; L <= 18; L++ {
+		lens = append(lens, L)
+	}
+	// ... and the size classes of the encoding
+	lens = append(lens, 31, 32, 33, 63, 64, 65, 93, 94, 95, 96, 97, 127, 128, 129, 239, 240, 241, 242, 2286, 2287, 2288, 2289, 4094, 4095, 4096, 4097)
 	if big {
 		lens = append(lens, 67822, 67823, 67824)
 	}
@@ -442,6 +448,10 @@ func ScaledFamilies(big bool) []Scaled {
 		}
 		pad := rep("print 1\n", n)
 		add(fmt.Sprintf("growth-%d", n), pad+"print false and 2 + 3 * 4\nprint 0 or 5 + 6 - 7\nprint true and nil or 2 + 2\ndef b { x = nil or 2 + 3; y = 1 and x + 1 }\n")
+	}
+	// far more line ends than code bytes (a licence header, blank lines, a trailing comment block)
+	for _, n := range []int{10, 100, 1000, 5000} {
+		add(fmt.Sprintf("blanklines-%d", n), rep("\n", n)+"print 1\n"+rep("# comment line\n", n)+"def b { x = 1 }\n"+rep("\n", n)+"bind b -> struct\nbind b -> struct\nprint 1/0"+rep("\n", n))
 	}
 	// block nesting
 	for _, n := range []int{15, 16, 17, 18} {
